@@ -134,6 +134,18 @@ def _valid_point(models, n_ids):
     return np.array(theta), np.array(obs)
 
 
+def _names_stable(m):
+    """name queries (with either flag, repeated) are pure: counts agree
+    before and after"""
+    n = m.n_parameters()
+    a = m.get_parameter_names()
+    b = m.get_parameter_names(True)
+    c = m.get_parameter_names(True)
+    d = m.get_parameter_names()
+    return len(a) == len(b) == len(c) == len(d) == n == m.n_parameters() \
+        and a == d and b == c
+
+
 def _composition(k1, k2, k3, d1, d2, d3, n_units, n_ids):
     spec = [(k1, d1), (k2, d2), (k3, d3)][:n_units]
     models = [_make(k, d, n_ids) for k, d in spec]
@@ -167,6 +179,7 @@ def check_population(k1: int, k2: int, k3: int, d1: int, d2: int, d3: int,
         ok = ok and dth.shape == (m.n_parameters(),)
         score, ds = m.compute_sensitivities(theta, obs, reduce=True)
         ok = ok and ds.shape == (nb + nt,)
+    ok = ok and _names_stable(m)
     dn = ['d%d' % i for i in range(m.n_dim())]
     m.set_dim_names(dn)
     ok = ok and m.get_dim_names() == dn
@@ -192,11 +205,12 @@ def check_hierarchical(k1: int, k2: int, d1: int, n_ids: int,
         pop = chi.ReducedPopulationModel(pop)
         nm = pop.get_parameter_names()
         pop.fix_parameters({nm[(fix - 1) % len(nm)]: 0.8})
+    ok0 = _names_stable(pop)
     hl = chi.HierarchicalLogLikelihood(lls, pop)
     n = hl.n_parameters()
     names = hl.get_parameter_names()
     ids = hl.get_id()
-    ok = len(names) == n and len(ids) == n
+    ok = ok0 and len(names) == n and len(ids) == n
     n_top = hl.n_parameters(exclude_bottom_level=True)
     ok = ok and n_top == pop.n_parameters()
     ok = ok and all(i is not None for i in ids[:n - n_top])
@@ -274,6 +288,9 @@ def check_covariate(kind: int, n_dim: int, n_cov: int, selmask: int,
         ok = ok and len(set(names)) == len(names)
         nb, nt = m.n_hierarchical_parameters(n_ids)
         ok = ok and nt == m.n_parameters()
+    ok = ok and _names_stable(m)
+    comp = chi.ComposedPopulationModel([m, chi.PooledModel()])
+    ok = ok and _names_stable(comp) and _names_stable(m)
     return bool(ok)
 
 
